@@ -632,9 +632,11 @@ package decoder
 //@   assigns fresh
 
 //@ func decodeKeyCharByUnicodeRune(buf, cursor) (chars, c, err)
-//@   props C15 C06
+//@   props C15 C06 C05
 //@   requires bufOK(buf, cursor)
 //@   ensures err == nil ==> cursor <= c && c < len(buf) - 1 && len(chars) >= 1 && len(chars) <= 4
+// an accepted \u escape has four hexadecimal digits (C05: the key is a JSON string)
+//@   ensures[C05] err == nil ==> isHex(buf[cursor]) && isHex(buf[cursor+1]) && isHex(buf[cursor+2]) && isHex(buf[cursor+3])
 //@   assigns fresh
 
 //@ func unicodeToRune(code) (r)
